@@ -3,6 +3,7 @@ package main
 // SMT-LIB script construction and solver racing.
 
 import (
+	"runtime"
 	"bytes"
 	"crypto/sha1"
 	"go/types"
@@ -485,7 +486,16 @@ var solverSpecs = []solverSpec{
 	{"cvc5", []string{"cvc5", "--lang=smt2", "--incremental"}},
 }
 
-var solverSem = make(chan struct{}, 16)
+var solverSem = make(chan struct{}, solverSlots())
+
+// solverSlots: queries in flight at once over the whole process (each races three solver processes)
+func solverSlots() int {
+	n := runtime.NumCPU() / 3
+	if n < 2 {
+		n = 2
+	}
+	return n
+}
 
 // solve races the installed solvers on one query. A definite answer (unsat/sat) from any
 // solver wins; if wantAgree > 1 the call waits until that many solvers have said unsat.
